@@ -1,7 +1,9 @@
 // Executor for C16: drives the in-memory collections of core/collection through
 // their public APIs, one generated operation sequence per case, and reports every
 // observable result.  RollingWindow runs on the virtual clock provided by the
-// core/timex overlay (harness/overlay/timex/relativetime.go).
+// core/timex overlay (harness/overlay/timex/relativetime.go).  Kind "lin" runs several
+// free-running goroutines against one object and reports every call with logical
+// call/return times (a linearisation is searched for, and judged, in Coq).
 package main
 
 import (
@@ -11,6 +13,7 @@ import (
 	"strconv"
 	"strings"
 	"sync"
+	"sync/atomic"
 	"time"
 
 	"github.com/zeromicro/go-zero/core/collection"
@@ -20,26 +23,43 @@ import (
 )
 
 type Case struct {
-	ID       int     `json:"id"`
-	Kind     string  `json:"kind"`
-	Size     int     `json:"size"`
-	Interval int64   `json:"interval"`
-	T0       int64   `json:"t0"`
-	Ignore   bool    `json:"ignore"`
-	Limit    int     `json:"limit"`
-	ExpireMs int64   `json:"expire_ms"`
-	Ops      [][]any `json:"ops"`
+	ID       int       `json:"id"`
+	Kind     string    `json:"kind"`
+	Size     int       `json:"size"`
+	Interval int64     `json:"interval"`
+	T0       int64     `json:"t0"`
+	Ignore   bool      `json:"ignore"`
+	Limit    int       `json:"limit"`
+	ExpireMs int64     `json:"expire_ms"`
+	Ops      [][]any   `json:"ops"`
+	Bucket   string    `json:"bucket"`  // window: "sum" = the package's own Bucket[T] (Sum, Count)
+	Name     bool      `json:"name"`    // cache: WithName
+	Obj      string    `json:"obj"`     // lin: which structure
+	Pre      [][]any   `json:"pre"`     // lin: sequential prefix (results not recorded)
+	Threads  [][][]any `json:"threads"` // lin: one script per goroutine
 }
 
 type Out struct {
-	ID  int    `json:"id"`
-	Obs []any  `json:"obs"`
-	At  []int64 `json:"at,omitempty"` // cache_rt: milliseconds since the start, per operation
-	Pair any    `json:"pair,omitempty"` // cache_take2: what the second, concurrent Take saw
-	Err string `json:"err,omitempty"`
+	ID   int     `json:"id"`
+	Obs  []any   `json:"obs"`
+	At   []int64 `json:"at,omitempty"`   // cache_rt: milliseconds since the start, per operation
+	Pair any     `json:"pair,omitempty"` // cache_take2: what the second, concurrent Take saw
+	Free [][]Ev  `json:"free,omitempty"` // lin: per goroutine, every call with logical call/return times
+	Err  string  `json:"err,omitempty"`
+}
+
+// Ev is one call of a free-running goroutine: S and E are values of one shared atomic
+// counter taken just before the call and just after its return.
+type Ev struct {
+	S   int64 `json:"s"`
+	E   int64 `json:"e"`
+	Obs any   `json:"obs"`
 }
 
 func num(v any) int64 { return int64(v.(float64)) }
+
+// a stepper applies one operation to one object and returns its observation (nil = none)
+type stepper func(op []any) any
 
 // ---- rolling window -----------------------------------------------------------
 
@@ -49,15 +69,40 @@ type lb struct{ vals []int64 }
 func (b *lb) Add(v int64) { b.vals = append(b.vals, v) }
 func (b *lb) Reset()      { b.vals = nil }
 
-func runWindow(c Case, out *Out) {
+// the clock is set by the operation when it carries a time (sequential cases)
+func windowStepper(c Case) stepper {
 	timex.SetFakeNow(time.Duration(c.T0))
+	if c.Bucket == "sum" {
+		var opts []collection.RollingWindowOption[int64, *collection.Bucket[int64]]
+		if c.Ignore {
+			opts = append(opts, collection.IgnoreCurrentBucket[int64, *collection.Bucket[int64]]())
+		}
+		w := collection.NewRollingWindow[int64, *collection.Bucket[int64]](
+			func() *collection.Bucket[int64] { return new(collection.Bucket[int64]) }, c.Size,
+			time.Duration(c.Interval), opts...)
+		return func(op []any) any {
+			switch op[0].(string) {
+			case "add":
+				timex.SetFakeNow(time.Duration(num(op[1])))
+				w.Add(num(op[2]))
+			case "reduce":
+				timex.SetFakeNow(time.Duration(num(op[1])))
+				buckets := [][]int64{}
+				w.Reduce(func(b *collection.Bucket[int64]) {
+					buckets = append(buckets, []int64{b.Sum, b.Count})
+				})
+				return buckets
+			}
+			return nil
+		}
+	}
 	var opts []collection.RollingWindowOption[int64, *lb]
 	if c.Ignore {
 		opts = append(opts, collection.IgnoreCurrentBucket[int64, *lb]())
 	}
 	w := collection.NewRollingWindow[int64, *lb](func() *lb { return &lb{} }, c.Size,
 		time.Duration(c.Interval), opts...)
-	for _, op := range c.Ops {
+	return func(op []any) any {
 		switch op[0].(string) {
 		case "add":
 			timex.SetFakeNow(time.Duration(num(op[1])))
@@ -70,8 +115,15 @@ func runWindow(c Case, out *Out) {
 				copy(vs, b.vals)
 				buckets = append(buckets, vs)
 			})
-			out.Obs = append(out.Obs, buckets)
+			return buckets
+		case "cadd": // free-running: the clock stands still
+			w.Add(num(op[1]))
+		case "creduce":
+			vs := []int64{}
+			w.Reduce(func(b *lb) { vs = append(vs, b.vals...) })
+			return []any{"list", sorted(vs)}
 		}
+		return nil
 	}
 }
 
@@ -84,32 +136,45 @@ func opt(v any, ok bool) any {
 	return []any{"opt", v}
 }
 
-func runSafeMap(c Case, out *Out) {
+func sortPairs(ps [][2]int64) {
+	sort.Slice(ps, func(i, j int) bool {
+		if ps[i][0] != ps[j][0] {
+			return ps[i][0] < ps[j][0]
+		}
+		return ps[i][1] < ps[j][1]
+	})
+}
+
+func safeMapStepper(c Case) stepper {
 	m := collection.NewSafeMap()
-	for _, op := range c.Ops {
+	return func(op []any) any {
 		switch op[0].(string) {
 		case "set":
 			m.Set(num(op[1]), num(op[2]))
 		case "get":
 			v, ok := m.Get(num(op[1]))
-			out.Obs = append(out.Obs, opt(v, ok))
+			return opt(v, ok)
 		case "del":
 			m.Del(num(op[1]))
 		case "size":
-			out.Obs = append(out.Obs, []any{"num", m.Size()})
+			return []any{"num", m.Size()}
 		case "range":
 			ps := [][2]int64{}
 			m.Range(func(k, v any) bool {
 				ps = append(ps, [2]int64{k.(int64), v.(int64)})
 				return true
 			})
-			sort.Slice(ps, func(i, j int) bool {
-				if ps[i][0] != ps[j][0] {
-					return ps[i][0] < ps[j][0]
-				}
-				return ps[i][1] < ps[j][1]
+			sortPairs(ps)
+			return []any{"pairs", ps}
+		case "rangestop":
+			// Range whose callback says "stop" at its n-th call: what it was shown, in order
+			n := num(op[1])
+			ps := [][2]int64{}
+			m.Range(func(k, v any) bool {
+				ps = append(ps, [2]int64{k.(int64), v.(int64)})
+				return int64(len(ps)) < n
 			})
-			out.Obs = append(out.Obs, []any{"pairs", ps})
+			return []any{"pairs", ps}
 		case "setseq":
 			k0, n, v := num(op[1]), num(op[2]), num(op[3])
 			for i := int64(0); i < n; i++ {
@@ -127,29 +192,31 @@ func runSafeMap(c Case, out *Out) {
 				m.Del(k)
 			}
 		}
+		return nil
 	}
 }
 
 // ---- queue / ring -----------------------------------------------------------------
 
-func runQueue(c Case, out *Out) {
+func queueStepper(c Case) stepper {
 	q := collection.NewQueue(c.Size)
-	for _, op := range c.Ops {
+	return func(op []any) any {
 		switch op[0].(string) {
 		case "put":
 			q.Put(num(op[1]))
 		case "take":
 			v, ok := q.Take()
-			out.Obs = append(out.Obs, opt(v, ok))
+			return opt(v, ok)
 		case "empty":
-			out.Obs = append(out.Obs, []any{"bool", q.Empty()})
+			return []any{"bool", q.Empty()}
 		}
+		return nil
 	}
 }
 
-func runRing(c Case, out *Out) {
+func ringStepper(c Case) stepper {
 	r := collection.NewRing(c.Size)
-	for _, op := range c.Ops {
+	return func(op []any) any {
 		switch op[0].(string) {
 		case "add":
 			r.Add(num(op[1]))
@@ -158,8 +225,9 @@ func runRing(c Case, out *Out) {
 			for _, v := range r.Take() {
 				vs = append(vs, v.(int64))
 			}
-			out.Obs = append(out.Obs, []any{"list", vs})
+			return []any{"list", vs}
 		}
+		return nil
 	}
 }
 
@@ -176,6 +244,8 @@ func decodeKey(k int64) any {
 		return int64(v)
 	case 2:
 		return uint(v)
+	case 4:
+		return uint64(v)
 	default:
 		return strconv.FormatInt(v, 10)
 	}
@@ -189,6 +259,8 @@ func encodeKey(k any) int64 {
 		return tagShift + x
 	case uint:
 		return 2*tagShift + int64(x)
+	case uint64:
+		return 4*tagShift + int64(x)
 	case string:
 		n, _ := strconv.ParseInt(x, 10, 64)
 		return 3*tagShift + n
@@ -201,14 +273,14 @@ func sorted(ks []int64) []int64 {
 	return ks
 }
 
-func runSet(c Case, out *Out) {
+func setStepper(c Case) stepper {
 	var s *collection.Set
 	if c.Ignore {
 		s = collection.NewSet() // managed: type mismatches are only logged
 	} else {
 		s = collection.NewUnmanagedSet()
 	}
-	for _, op := range c.Ops {
+	return func(op []any) any {
 		switch op[0].(string) {
 		case "add":
 			k := decodeKey(num(op[1]))
@@ -219,23 +291,31 @@ func runSet(c Case, out *Out) {
 				s.AddInt64(x)
 			case uint:
 				s.AddUint(x)
+			case uint64:
+				s.AddUint64(x)
 			case string:
 				s.AddStr(x)
 			}
 		case "addany":
 			s.Add(decodeKey(num(op[1])))
+		case "addmany": // one variadic call
+			var ks []any
+			for _, k := range op[1:] {
+				ks = append(ks, decodeKey(num(k)))
+			}
+			s.Add(ks...)
 		case "remove":
 			s.Remove(decodeKey(num(op[1])))
 		case "contains":
-			out.Obs = append(out.Obs, []any{"bool", s.Contains(decodeKey(num(op[1])))})
+			return []any{"bool", s.Contains(decodeKey(num(op[1])))}
 		case "count":
-			out.Obs = append(out.Obs, []any{"num", s.Count()})
+			return []any{"num", s.Count()}
 		case "keys":
 			ks := []int64{}
 			for _, k := range s.Keys() {
 				ks = append(ks, encodeKey(k))
 			}
-			out.Obs = append(out.Obs, []any{"list", sorted(ks)})
+			return []any{"list", sorted(ks)}
 		case "keysof":
 			ks := []int64{}
 			switch num(op[1]) {
@@ -251,13 +331,18 @@ func runSet(c Case, out *Out) {
 				for _, k := range s.KeysUint() {
 					ks = append(ks, encodeKey(k))
 				}
+			case 4:
+				for _, k := range s.KeysUint64() {
+					ks = append(ks, encodeKey(k))
+				}
 			default:
 				for _, k := range s.KeysStr() {
 					ks = append(ks, encodeKey(k))
 				}
 			}
-			out.Obs = append(out.Obs, []any{"list", sorted(ks)})
+			return []any{"list", sorted(ks)}
 		}
+		return nil
 	}
 }
 
@@ -265,58 +350,112 @@ func runSet(c Case, out *Out) {
 
 var errFetch = errors.New("fetch failed")
 
+func ckey(v any) string { return "k" + strconv.FormatInt(num(v), 10) }
+
+func newCache(c Case, expire time.Duration) (*collection.Cache, error) {
+	var opts []collection.CacheOption
+	if c.Limit != 0 {
+		opts = append(opts, collection.WithLimit(c.Limit))
+	}
+	if c.Name {
+		opts = append(opts, collection.WithName("c16"))
+	}
+	return collection.NewCache(expire, opts...)
+}
+
+func heldKeys(cache *collection.Cache) []int64 {
+	ks := []int64{}
+	for _, k := range collection.VerifC16CacheHeld(cache) {
+		n, _ := strconv.ParseInt(strings.TrimPrefix(k, "k"), 10, 64)
+		ks = append(ks, n)
+	}
+	return sorted(ks)
+}
+
+// operations common to every cache kind; ok = false when op is not one of them
+func cacheOp(cache *collection.Cache, op []any) (obs any, ok bool) {
+	take := func() any {
+		called := false
+		v, err := cache.Take(ckey(op[1]), func() (any, error) {
+			called = true
+			if op[2] == nil {
+				return nil, errFetch
+			}
+			return num(op[2]), nil
+		})
+		if err != nil {
+			if err != errFetch {
+				return []any{"num", -424244} // an error that is not the loader's
+			}
+			return []any{"take", nil, called}
+		}
+		return []any{"take", v, called}
+	}
+	switch op[0].(string) {
+	case "set":
+		if len(op) > 3 {
+			cache.SetWithExpire(ckey(op[1]), num(op[2]), time.Duration(num(op[3]))*time.Millisecond)
+		} else {
+			cache.Set(ckey(op[1]), num(op[2]))
+		}
+		return nil, true
+	case "get":
+		v, ok := cache.Get(ckey(op[1]))
+		return opt(v, ok), true
+	case "del":
+		cache.Del(ckey(op[1]))
+		return nil, true
+	case "take":
+		return take(), true
+	case "take_race":
+		// between this Take's miss and its single flight "another goroutine" stores the key
+		collection.VerifC16BeforeFlight(cache, func(key string) { cache.Set(key, num(op[3])) })
+		r := take()
+		collection.VerifC16BeforeFlight(cache, nil)
+		return r, true
+	case "held": // keys of c.data, read without touching the recency order
+		return []any{"list", heldKeys(cache)}, true
+	case "size": // Cache.size(), the callback of the stat loop
+		return []any{"num", collection.VerifC16CacheSize(cache)}, true
+	}
+	return nil, false
+}
+
+func cacheStepper(c Case) (stepper, error) {
+	cache, err := newCache(c, time.Hour)
+	if err != nil {
+		return nil, err
+	}
+	return func(op []any) any {
+		r, _ := cacheOp(cache, op)
+		return r
+	}, nil
+}
+
 func runCache(c Case, out *Out, realtime bool) {
 	expire := time.Hour
 	if realtime {
 		expire = time.Duration(c.ExpireMs) * time.Millisecond
 	}
-	var opts []collection.CacheOption
-	if c.Limit != 0 {
-		opts = append(opts, collection.WithLimit(c.Limit))
-	}
-	cache, err := collection.NewCache(expire, opts...)
+	cache, err := newCache(c, expire)
 	if err != nil {
 		out.Err = err.Error()
 		return
 	}
 	start := time.Now()
 	for _, op := range c.Ops {
-		key := func() string { return "k" + strconv.FormatInt(num(op[1]), 10) }
 		if realtime {
 			out.At = append(out.At, time.Since(start).Milliseconds())
 		}
-		switch op[0].(string) {
-		case "set":
-			cache.Set(key(), num(op[2]))
-		case "get":
-			v, ok := cache.Get(key())
-			out.Obs = append(out.Obs, opt(v, ok))
-		case "del":
-			cache.Del(key())
-		case "take":
-			called := false
-			v, err := cache.Take(key(), func() (any, error) {
-				called = true
-				if op[2] == nil {
-					return nil, errFetch
-				}
-				return num(op[2]), nil
-			})
-			if err != nil {
-				if err != errFetch {
-					out.Err = "unexpected error from Take: " + err.Error()
-					return
-				}
-				out.Obs = append(out.Obs, []any{"take", nil, called})
-			} else {
-				out.Obs = append(out.Obs, []any{"take", v, called})
-			}
-		case "sleep":
+		if op[0].(string) == "sleep" {
 			time.Sleep(time.Duration(num(op[1])) * time.Millisecond)
+			continue
+		}
+		if r, _ := cacheOp(cache, op); r != nil {
+			out.Obs = append(out.Obs, r)
 		}
 	}
 }
-
 
 // ---- cache driven by its own timing wheel, tick by tick -------------------------------
 
@@ -351,42 +490,17 @@ func cbBusy(stack string) bool {
 func runCacheW(c Case, out *Out) {
 	tk := &rticker{c: make(chan time.Time)}
 	timex.SetTickerHook(func(d time.Duration) timex.Ticker { return tk })
-	var opts []collection.CacheOption
-	if c.Limit != 0 {
-		opts = append(opts, collection.WithLimit(c.Limit))
-	}
-	cache, err := collection.NewCache(time.Duration(c.ExpireMs)*time.Millisecond, opts...)
+	cache, err := newCache(c, time.Duration(c.ExpireMs)*time.Millisecond)
 	timex.SetTickerHook(nil)
 	if err != nil {
 		out.Err = err.Error()
 		return
 	}
 	for _, op := range c.Ops {
-		key := func() string { return "k" + strconv.FormatInt(num(op[1]), 10) }
-		switch op[0].(string) {
-		case "set":
-			cache.SetWithExpire(key(), num(op[2]), time.Duration(num(op[3]))*time.Millisecond)
-		case "get":
-			v, ok := cache.Get(key())
-			out.Obs = append(out.Obs, opt(v, ok))
-		case "del":
-			cache.Del(key())
-		case "take":
-			called := false
-			v, err := cache.Take(key(), func() (any, error) {
-				called = true
-				if op[2] == nil {
-					return nil, errFetch
-				}
-				return num(op[2]), nil
-			})
-			if err != nil {
-				out.Obs = append(out.Obs, []any{"take", nil, called})
-			} else {
-				out.Obs = append(out.Obs, []any{"take", v, called})
-			}
-		case "tick":
+		if op[0].(string) == "tick" {
 			tk.c <- time.Now()
+		} else if r, _ := cacheOp(cache, op); r != nil {
+			out.Obs = append(out.Obs, r)
 		}
 		if !hx.Quiesce(cbBusy, 5*time.Second) {
 			out.Err = "wheel callbacks did not quiesce"
@@ -402,104 +516,173 @@ func flightWaiter(stack string) bool {
 }
 
 func runCacheTake2(c Case, out *Out) {
-	var opts []collection.CacheOption
-	if c.Limit != 0 {
-		opts = append(opts, collection.WithLimit(c.Limit))
-	}
-	cache, err := collection.NewCache(time.Hour, opts...)
+	cache, err := newCache(c, time.Hour)
 	if err != nil {
 		out.Err = err.Error()
 		return
 	}
 	for _, op := range c.Ops {
-		key := func() string { return "k" + strconv.FormatInt(num(op[1]), 10) }
-		switch op[0].(string) {
-		case "set":
-			cache.Set(key(), num(op[2]))
-		case "get":
-			v, ok := cache.Get(key())
-			out.Obs = append(out.Obs, opt(v, ok))
-		case "del":
-			cache.Del(key())
-		case "take":
+		if op[0].(string) != "take2" {
+			if r, _ := cacheOp(cache, op); r != nil {
+				out.Obs = append(out.Obs, r)
+			}
+			continue
+		}
+		// A: Take(k) with a loader that parks on a gate; B: Take(k) started while A's
+		// loader is parked; then the gate opens
+		k := ckey(op[1])
+		entered := make(chan struct{})
+		gate := make(chan struct{})
+		type res struct {
+			v      any
+			err    error
+			called bool
+		}
+		ra, rb := make(chan res, 1), make(chan res, 1)
+		go func() {
 			called := false
-			v, err := cache.Take(key(), func() (any, error) {
+			v, err := cache.Take(k, func() (any, error) {
 				called = true
-				if op[2] == nil {
-					return nil, errFetch
-				}
+				close(entered)
+				<-gate
 				return num(op[2]), nil
 			})
-			if err != nil {
-				out.Obs = append(out.Obs, []any{"take", nil, called})
-			} else {
-				out.Obs = append(out.Obs, []any{"take", v, called})
+			ra <- res{v, err, called}
+		}()
+		select {
+		case <-entered:
+		case <-time.After(5 * time.Second):
+			out.Err = "take2: first loader was not called (key present?)"
+			return
+		}
+		go func() {
+			called := false
+			v, err := cache.Take(k, func() (any, error) {
+				called = true
+				return num(op[3]), nil
+			})
+			rb <- res{v, err, called}
+		}()
+		blocked := false
+		deadline := time.Now().Add(3 * time.Second)
+		for time.Now().Before(deadline) && !blocked {
+			for _, g := range hx.Stacks() {
+				if flightWaiter(g) {
+					blocked = true
+					break
+				}
 			}
-		case "take2":
-			// A: Take(k) with a loader that parks on a gate; B: Take(k) started while A's
-			// loader is parked; then the gate opens
-			k := key()
-			entered := make(chan struct{})
-			gate := make(chan struct{})
-			type res struct {
-				v      any
-				err    error
-				called bool
-			}
-			ra, rb := make(chan res, 1), make(chan res, 1)
-			go func() {
-				called := false
-				v, err := cache.Take(k, func() (any, error) {
-					called = true
-					close(entered)
-					<-gate
-					return num(op[2]), nil
-				})
-				ra <- res{v, err, called}
-			}()
 			select {
-			case <-entered:
-			case <-time.After(5 * time.Second):
-				out.Err = "take2: first loader was not called (key present?)"
-				return
-			}
-			go func() {
-				called := false
-				v, err := cache.Take(k, func() (any, error) {
-					called = true
-					return num(op[3]), nil
-				})
-				rb <- res{v, err, called}
-			}()
-			blocked := false
-			deadline := time.Now().Add(3 * time.Second)
-			for time.Now().Before(deadline) && !blocked {
-				for _, g := range hx.Stacks() {
-					if flightWaiter(g) {
-						blocked = true
-						break
-					}
-				}
-				select {
-				case r := <-rb: // B finished although A's loader is still parked
-					rb <- r
-					deadline = time.Now()
-				default:
-					if !blocked {
-						time.Sleep(200 * time.Microsecond)
-					}
+			case r := <-rb: // B finished although A's loader is still parked
+				rb <- r
+				deadline = time.Now()
+			default:
+				if !blocked {
+					time.Sleep(200 * time.Microsecond)
 				}
 			}
-			close(gate)
-			a, b := <-ra, <-rb
-			if a.err != nil || b.err != nil {
-				out.Err = "take2: unexpected error"
-				return
-			}
-			out.Obs = append(out.Obs, []any{"take", a.v, a.called})
-			out.Pair = map[string]any{"b_val": b.v, "b_called": b.called, "b_blocked": blocked}
+		}
+		close(gate)
+		a, b := <-ra, <-rb
+		if a.err != nil || b.err != nil {
+			out.Err = "take2: unexpected error"
+			return
+		}
+		out.Obs = append(out.Obs, []any{"take", a.v, a.called})
+		out.Pair = map[string]any{"b_val": b.v, "b_called": b.called, "b_blocked": blocked}
+	}
+}
+
+// ---- free-running goroutines on one object ---------------------------------------------
+
+func makeStepper(kind string, c Case) (stepper, error) {
+	switch kind {
+	case "window":
+		return windowStepper(c), nil
+	case "safemap":
+		return safeMapStepper(c), nil
+	case "queue":
+		return queueStepper(c), nil
+	case "ring":
+		return ringStepper(c), nil
+	case "set":
+		return setStepper(c), nil
+	case "cache":
+		return cacheStepper(c)
+	}
+	return nil, errors.New("unknown object " + kind)
+}
+
+func runSeq(c Case, out *Out) {
+	st, err := makeStepper(c.Kind, c)
+	if err != nil {
+		out.Err = err.Error()
+		return
+	}
+	for _, op := range c.Ops {
+		if r := st(op); r != nil {
+			out.Obs = append(out.Obs, r)
 		}
 	}
+}
+
+// Every goroutine runs its script as fast as it can; each call is bracketed by two reads
+// of one atomic counter (call time S, return time E).  If call a returned before call b
+// was issued then E(a) < S(b).  A panic inside a goroutine is reported as the case's error.
+func runLin(c Case, out *Out) {
+	st, err := makeStepper(c.Obj, c)
+	if err != nil {
+		out.Err = err.Error()
+		return
+	}
+	for _, op := range c.Pre {
+		st(op)
+	}
+	var clock atomic.Int64
+	var ready atomic.Int32
+	var wg sync.WaitGroup
+	start := make(chan struct{})
+	free := make([][]Ev, len(c.Threads))
+	errs := make([]string, len(c.Threads))
+	for i, script := range c.Threads {
+		wg.Add(1)
+		go func(i int, script [][]any) {
+			defer wg.Done()
+			defer func() {
+				if r := recover(); r != nil {
+					errs[i] = fmt.Sprintf("panic: %v", r)
+				}
+			}()
+			evs := make([]Ev, 0, len(script))
+			<-start
+			// leave together: the scripts are a few hundred nanoseconds long
+			ready.Add(1)
+			for spin := 0; int(ready.Load()) < len(c.Threads) && spin < 1<<22; spin++ {
+			}
+			for _, op := range script {
+				s := clock.Add(1)
+				r := st(op)
+				e := clock.Add(1)
+				evs = append(evs, Ev{S: s, E: e, Obs: r})
+				free[i] = evs
+			}
+		}(i, script)
+	}
+	close(start)
+	done := make(chan struct{})
+	go func() { wg.Wait(); close(done) }()
+	select {
+	case <-done:
+	case <-time.After(20 * time.Second):
+		out.Err = "free-running goroutines did not finish (deadlock?)"
+		return
+	}
+	for _, e := range errs {
+		if e != "" {
+			out.Err = e
+		}
+	}
+	out.Free = free
 }
 
 func runCase(c Case) (out Out) {
@@ -510,16 +693,8 @@ func runCase(c Case) (out Out) {
 		}
 	}()
 	switch c.Kind {
-	case "window":
-		runWindow(c, &out)
-	case "safemap":
-		runSafeMap(c, &out)
-	case "queue":
-		runQueue(c, &out)
-	case "ring":
-		runRing(c, &out)
-	case "set":
-		runSet(c, &out)
+	case "window", "safemap", "queue", "ring", "set":
+		runSeq(c, &out)
 	case "cache":
 		runCache(c, &out, false)
 	case "cache_rt":
@@ -528,6 +703,8 @@ func runCase(c Case) (out Out) {
 		runCacheW(c, &out)
 	case "cache_take2":
 		runCacheTake2(c, &out)
+	case "lin":
+		runLin(c, &out)
 	default:
 		out.Err = "unknown kind " + c.Kind
 	}
